@@ -313,8 +313,9 @@ def suite_numeric_cases():
     out = []
     for d in (3, 4, 6, 7):
         names = ["minimum", "maximum", "exclusiveMinimum", "exclusiveMaximum", "multipleOf", "divisibleBy"]
-        files = ["/repo/json/tests/draft%d/%s.json" % (d, n) for n in names]
-        files += ["/repo/json/tests/draft%d/optional/%s.json" % (d, n) for n in ("bignum", "float-overflow")]
+        from vf.harness import REPO
+        files = [REPO + "/json/tests/draft%d/%s.json" % (d, n) for n in names]
+        files += [REPO + "/json/tests/draft%d/optional/%s.json" % (d, n) for n in ("bignum", "float-overflow")]
         for f in files:
             if not os.path.exists(f):
                 continue
